@@ -46,6 +46,11 @@ def parse_items(line):
     return out
 
 
+def bbgen_many():
+    import bbgen
+    return bbgen.many_contigs(300, 3)
+
+
 class C15(Prop):
     pid = "C15"
     needs_repo_bins = True
@@ -288,6 +293,48 @@ class C15(Prop):
                     if key not in seen_keys:
                         seen_keys.add(key)
                         rep.violation(f"cli_merge_{k}_{oname}_{key.split(':')[1]}.txt", body)
+        # an input with more chromosomes than the index's default fan-out (the index gets an upper level whose nodes span
+        # chromosome boundaries) merged with a small one: per-base sums on every chromosome
+        names, sizes_m, data_m = bbgen_many()
+        szp = os.path.join(d, "many.sizes")
+        open(szp, "w").write("".join(f"{n}\t{sizes_m[n]}\n" for n in names))
+        a_bg, b_bg = os.path.join(d, "manyA.bedGraph"), os.path.join(d, "manyB.bedGraph")
+        with open(a_bg, "w") as f:
+            for n in names:
+                for (s_, e_, v) in data_m[n]:
+                    f.write(f"{n}\t{s_}\t{e_}\t{v}\n")
+        some = [names[i] for i in (0, 5, 130, 255, 256, 299)]
+        with open(b_bg, "w") as f:
+            for n in some:
+                f.write(f"{n}\t0\t{data_m[n][0][1]}\t2\n")
+        for x in (a_bg, b_bg):
+            subprocess.run([repo_bin("bedgraphtobigwig"), x, szp, x[:-9] + ".bw"], capture_output=True, text=True, timeout=300)
+        outp = os.path.join(d, "many_out.bedGraph")
+        p = subprocess.run([repo_bin("bigwigmerge"), "-b", a_bg[:-9] + ".bw", "-b", b_bg[:-9] + ".bw", outp], capture_output=True, text=True, timeout=300)
+        want = {}
+        for n in names:
+            per = {}
+            for (s_, e_, v) in data_m[n]:
+                for q in range(s_, e_):
+                    per[q] = per.get(q, 0) + v
+            if n in some:
+                for q in range(0, data_m[n][0][1]):
+                    per[q] = per.get(q, 0) + 2
+            want[n] = per
+        got = {}
+        if os.path.exists(outp):
+            for ln in open(outp).read().splitlines():
+                t = ln.split("\t")
+                for q in range(int(t[1]), int(t[2])):
+                    got.setdefault(t[0], {})[q] = float(t[3])
+        bad = next((n for n in names if got.get(n, {}) != {q: float(v) for q, v in want[n].items()}), None)
+        checked += 1
+        rep.tag("cli_many_chromosomes")
+        if bad is not None:
+            rep.violation("cli_merge_many_chromosomes.txt",
+                          f"# bigwigmerge of a {len(names)}-chromosome bigWig (default options) with a 6-chromosome one\n# command: {' '.join(p.args)}\n"
+                          f"# chromosome {bad}: output carries {sorted(got.get(bad, {}).items())[:8]}, the per-base sum of the inputs is {sorted(want[bad].items())[:8]}\n"
+                          f"# exit {p.returncode} {p.stderr.strip()[:200]}\n")
         rep.coverage["cli_merge_runs"] = checked
 
 
